@@ -138,13 +138,13 @@ def go_build(pid="common"):
     return rc == 0, out, exe
 
 
-def _run_chunk(exe, subcmd, lines, stall):
+def _run_chunk(exe, subcmd, lines, stall, burn=False):
     """Run one driver process over lines; a crash or a stall marks that case and restarts after it."""
     out = []
     i = 0
     while i < len(lines):
         p = subprocess.Popen([exe, subcmd], stdin=subprocess.PIPE, stdout=subprocess.PIPE,
-                             stderr=subprocess.DEVNULL, env=GOENV)
+                             stderr=subprocess.DEVNULL, env=dict(GOENV, VERIF_MEMO_BURN="1") if burn else GOENV)
         payload = ("\n".join(lines[i:]) + "\n").encode()
         # feed stdin from a thread so that a big batch cannot deadlock on the pipe
         import threading
@@ -196,7 +196,7 @@ def run_impl(exe, subcmd, lines, procs=8, stall=20):
     size = (len(lines) + n - 1) // n
     chunks = [lines[k:k + size] for k in range(0, len(lines), size)]
     with ThreadPoolExecutor(max_workers=n) as ex:
-        res = list(ex.map(lambda c: _run_chunk(exe, subcmd, c, stall), chunks))
+        res = list(ex.map(lambda kc: _run_chunk(exe, subcmd, kc[1], stall, burn=kc[0] % 2 == 1), enumerate(chunks)))
     return [o for r in res for o in r]
 
 
